@@ -227,7 +227,7 @@ func makeTarget(
 	} else if requestBody != "" {
 		var err error
 		requestBodyFields, err = resolvePathToFieldDescriptors(
-			config.descriptor.Input(), requestBody, false,
+			config.inputDescriptor(), requestBody, false,
 		)
 		if err != nil {
 			return nil, err
@@ -246,7 +246,7 @@ func makeTarget(
 	} else if responseBody != "" {
 		var err error
 		responseBodyFields, err = resolvePathToFieldDescriptors(
-			config.descriptor.Output(), responseBody, false,
+			config.outputDescriptor(), responseBody, false,
 		)
 		if err != nil {
 			return nil, err
@@ -261,7 +261,7 @@ func makeTarget(
 	routeTargetVars := make([]routeTargetVar, len(variables))
 	for i, variable := range variables {
 		fields, err := resolvePathToFieldDescriptors(
-			config.descriptor.Input(), variable.fieldPath, false,
+			config.inputDescriptor(), variable.fieldPath, false,
 		)
 		if err != nil {
 			return nil, err
